@@ -158,6 +158,8 @@ pub enum K {
     Effect { msg: Uid, actor: u32, step: u16, what: &'static str, arg: u64, ok: bool },
     /// delayed_exec body ran
     Exec { id: Uid, actor_tag: u32 },
+    /// a timer produced its message / ran its body (logged by the message constructor, i.e. at firing time)
+    TimerFire { id: Uid },
     /// timer registered from a handler/callback of `actor`
     TimerReg { id: Uid, actor: u32, tag: u32, kind: &'static str, dur: u64 },
     /// strong-handle reference model (interpreter's view): delta for actor `tag`
@@ -212,7 +214,7 @@ pub fn log(k: K) -> u64 {
             CLIENT_EVENTS.fetch_add(1, Ordering::Relaxed);
             NONTICK_EVENTS.fetch_add(1, Ordering::Relaxed);
         }
-        K::HIn { mk: Mk::Tick, .. } | K::HOut { mk: Mk::Tick, .. } | K::Exec { .. } => {}
+        K::HIn { mk: Mk::Tick, .. } | K::HOut { mk: Mk::Tick, .. } | K::Exec { .. } | K::TimerFire { .. } => {}
         _ => {
             NONTICK_EVENTS.fetch_add(1, Ordering::Relaxed);
         }
